@@ -300,7 +300,7 @@ func genConfig(c *driverCtx, nvals int) rtConfig {
 func driveRoundTrip(c *driverCtx, prop string) error {
 	feat := featuresFromKnown(prop)
 	// compile-time types through Encoder[T]
-	reps := c.pick(2, 12)
+	reps := c.pick(2, 40)
 	for _, st := range staticCases() {
 		for k := 0; k < reps; k++ {
 			n := 1 + c.rng.Intn(8)
@@ -317,7 +317,7 @@ func driveRoundTrip(c *driverCtx, prop string) error {
 		}
 	}
 	// run-time types through SchemaForType + Codec + FileWriter
-	nt := c.pick(120, 2500)
+	nt := c.pick(120, 8000)
 	for i := 0; i < nt; i++ {
 		t, tags := genType(c.rng, feat)
 		n := 1 + c.rng.Intn(6)
